@@ -765,6 +765,9 @@ pub struct Script {
     pub cfg: Cfg,
     pub prepop: Prepop,
     pub ops: Vec<Op>,
+    /// optional per-op expectation transcribed from the repository's own tests:
+    /// Some(true) = the suite asserts success, Some(false) = the suite asserts an error
+    pub expects: Vec<Option<bool>>,
     pub pool: Vec<String>,
     pub depth: usize,
 }
@@ -785,8 +788,11 @@ pub fn script_from_json(v: &Value) -> Option<Script> {
         }
     }
     let mut ops = vec![];
+    let mut expects = vec![];
     for o in v.get("ops")?.as_array()? {
         ops.push(op_from_json(o)?);
+        let e = o.as_array().and_then(|a| a.last()).and_then(|l| l.get("expect")).and_then(|x| x.as_str()).map(|x| x == "ok");
+        expects.push(e);
     }
     // universe: every component that occurs anywhere
     let mut names: BTreeSet<String> = BTreeSet::new();
@@ -811,11 +817,38 @@ pub fn script_from_json(v: &Value) -> Option<Script> {
         pool.push("a".into());
     }
     let depth = depth.min(4);
-    Some(Script { cfg, prepop, ops, pool, depth })
+    Some(Script { cfg, prepop, ops, expects, pool, depth })
 }
 
 pub fn run_script(v: &Value, opts: &HistOpts, exclude: &Excluder) -> CaseResult {
     let sc = script_from_json(v).ok_or_else(|| Failure { message: "unparsable script".into(), replay: v.clone() })?;
+    // oracle self-test: where the repository's suite asserts an outcome, the reference model
+    // must predict the same (run on the model alone, before touching the implementation)
+    if sc.expects.iter().any(|e| e.is_some()) {
+        let n = sc.cfg.overlay_layers().max(1);
+        let mut t = union_model(&sc.prepop, n);
+        for (i, op) in sc.ops.iter().enumerate() {
+            let p = predict(&t, op);
+            if let Some(want_ok) = sc.expects[i] {
+                let model_ok = match &p.expect {
+                    Expect::Ok(_) => Some(true),
+                    Expect::Err(_) => Some(false),
+                    Expect::Unspecified => None,
+                };
+                if model_ok.is_some() && model_ok != Some(want_ok) {
+                    return Err(Failure {
+                        message: format!("MODEL SELF-TEST: the repository's suite asserts that step {} {} {} but the reference model predicts {:?}", i + 1, op.render(), if want_ok { "succeeds" } else { "fails" }, p.expect),
+                        replay: v.clone(),
+                    });
+                }
+            }
+            if let Effect::New(nt) = p.effect {
+                if matches!(p.expect, Expect::Ok(_)) {
+                    t = nt;
+                }
+            }
+        }
+    }
     let plan = Plan {
         cfg: &sc.cfg,
         pool: sc.pool.clone(),
